@@ -266,7 +266,7 @@ class BlockSeries:
             if isinstance(order, slice):
                 if order.stop is None:
                     raise IndexError("Cannot evaluate infinite series")
-                if isinstance(order.start, int) and order.start < 0:
+                if order.start is not None and order.start < 0:
                     raise IndexError("Cannot evaluate negative order")
                 if order.stop < 0:
                     raise IndexError("Cannot evaluate negative order")
